@@ -48,13 +48,20 @@ func (q *MultiOpQueryer) Subscribe(req *requests.Request, closeCh <-chan struct{
 	errCh := make(chan error)
 	defer close(errCh)
 
+	// closed when subscription could not be started, nobody will listen to resCh or use closeCh then
+	failedCh := make(chan struct{})
+	isStarted := false
+
 	go func() {
 		simhook.Enter("sub.closer:" + q.url)
 		defer simhook.Exit()
 		defer func() {
 			recover()
 		}()
-		<-closeCh
+		select {
+		case <-closeCh:
+		case <-failedCh:
+		}
 		conn.Close()
 	}()
 
@@ -70,6 +77,9 @@ func (q *MultiOpQueryer) Subscribe(req *requests.Request, closeCh <-chan struct{
 				recover()
 			}()
 			conn.Close()
+			if !isStarted {
+				return
+			}
 			// indicate that it's done
 			simhook.Yield("sub.reader.done")
 			resCh <- nil
@@ -105,6 +115,7 @@ func (q *MultiOpQueryer) Subscribe(req *requests.Request, closeCh <-chan struct{
 		}
 
 		// init proccess is done
+		isStarted = true
 		simhook.Yield("sub.reader.init")
 		errCh <- nil
 
@@ -142,6 +153,7 @@ func (q *MultiOpQueryer) Subscribe(req *requests.Request, closeCh <-chan struct{
 	}()
 
 	if err := <-errCh; err != nil {
+		close(failedCh)
 		return err
 	}
 
